@@ -39,6 +39,14 @@ type Sorts struct {
 	cellComps  map[string]string
 	frozen     bool
 	qual       types.Qualifier
+	compMeta   map[string]compMeta
+}
+
+// compMeta describes the values stored in a heap component (for the old-heap closure axioms).
+type compMeta struct {
+	T    types.Type // type of the stored value
+	Nest string     // "" (Array Int V), or the inner index sort for (Array Int (Array Nest V))
+	Dom  bool       // map domain component: T is the key type
 }
 
 type AnyCtor struct {
@@ -63,6 +71,7 @@ func newSorts() *Sorts {
 		mapTypes:  map[string]*MapInfo{},
 		elemComps: map[string]string{},
 		cellComps: map[string]string{},
+		compMeta:  map[string]compMeta{},
 	}
 	s.qual = func(p *types.Package) string {
 		if p.Path() == "github.com/google/jsonschema-go/jsonschema" {
@@ -188,6 +197,7 @@ func (s *Sorts) structInfo(t types.Type) *StructInfo {
 func (s *Sorts) fieldComp(structT types.Type, idx int) (name, sort string) {
 	si := s.structInfo(structT)
 	f := si.Fields[idx]
+	s.compMeta["H_"+si.Name+"_"+f.Name] = compMeta{T: f.T}
 	return "H_" + si.Name + "_" + f.Name, "(Array Int " + f.Sort + ")"
 }
 
@@ -195,6 +205,7 @@ func (s *Sorts) elemComp(elemT types.Type) (name, sort string) {
 	n := "E_" + s.tname(elemT)
 	srt := "(Array Int (Array Int " + s.sortOf(elemT).Sort + "))"
 	s.elemComps[n] = srt
+	s.compMeta[n] = compMeta{T: elemT, Nest: "Int"}
 	return n, srt
 }
 
@@ -202,6 +213,7 @@ func (s *Sorts) cellComp(t types.Type) (name, sort string) {
 	n := "C_" + s.tname(t)
 	srt := "(Array Int " + s.sortOf(t).Sort + ")"
 	s.cellComps[n] = srt
+	s.compMeta[n] = compMeta{T: t}
 	return n, srt
 }
 
@@ -217,6 +229,8 @@ func (s *Sorts) mapInfo(t types.Type) *MapInfo {
 	mi.VSort, mi.VZero = vs.Sort, vs.Zero
 	s.mapTypes[key] = mi
 	s.mapList = append(s.mapList, mi)
+	s.compMeta["MV_"+mi.Name] = compMeta{T: m.Elem(), Nest: mi.KSort}
+	s.compMeta["MD_"+mi.Name] = compMeta{T: m.Key(), Nest: mi.KSort, Dom: true}
 	return mi
 }
 
@@ -244,7 +258,7 @@ func (s *Sorts) anyCtor(t types.Type) *AnyCtor {
 func (s *Sorts) prelude() string {
 	var sb strings.Builder
 	sb.WriteString("(declare-sort RV 0)\n(declare-sort RT 0)\n")
-	sb.WriteString("(declare-const rv_invalid RV)\n(declare-const rt_nil RT)\n")
+	sb.WriteString("(declare-const rv_invalid RV)\n(declare-const rt_nil RT)\n(declare-const epoch Int)\n(assert (>= epoch 0))\n")
 	sb.WriteString("(declare-datatypes ((Slice 0)) (((mk_slice (s_arr Int) (s_len Int)))))\n")
 	// struct datatypes in dependency order (fields only reference flat sorts or other structs already listed:
 	// structInfo appends after recursion, so structList is already topologically sorted).
@@ -270,4 +284,69 @@ func (s *Sorts) prelude() string {
 	}
 	sb.WriteString("(declare-datatypes (" + strings.Join(names, " ") + ") (" + strings.Join(bodies, "\n  ") + "))\n")
 	return sb.String()
+}
+
+// refExprs lists the SMT terms (over the variable v of type t) that denote references inside a value of type t.
+func (s *Sorts) refExprs(t types.Type, v string, depth int) []string {
+	if depth > 2 {
+		return nil
+	}
+	si := s.sortOf(t)
+	switch u := t.Underlying().(type) {
+	case *types.Pointer, *types.Map:
+		if si.Sort == "Int" {
+			return []string{v}
+		}
+	case *types.Slice:
+		return []string{"(s_arr " + v + ")"}
+	case *types.Struct:
+		if !strings.HasPrefix(si.Sort, "S_") {
+			return nil
+		}
+		info := s.structInfo(t)
+		var out []string
+		for i := 0; i < u.NumFields(); i++ {
+			f := info.Fields[i]
+			out = append(out, s.refExprs(f.T, fmt.Sprintf("(%s_%s %s)", info.Name, f.Name, v), depth+1)...)
+		}
+		return out
+	}
+	return nil
+}
+
+// oldHeapAxiom: objects that existed before the current API call only reference objects that existed before it.
+func (s *Sorts) oldHeapAxiom(comp, oldName string) string {
+	m, ok := s.compMeta[comp]
+	if !ok {
+		return ""
+	}
+	var val, binders, pat string
+	if m.Dom {
+		refs := s.refExprs(m.T, "k!o", 0)
+		if len(refs) == 0 {
+			return ""
+		}
+		var cs []string
+		for _, r := range refs {
+			cs = append(cs, fmt.Sprintf("(<= %s epoch)", r))
+		}
+		return fmt.Sprintf("(assert (forall ((r!o Int) (k!o %s)) (! (=> (and (<= r!o epoch) (select (select %s r!o) k!o)) (and %s)) :pattern ((select (select %s r!o) k!o)))))\n", m.Nest, oldName, strings.Join(cs, " "), oldName)
+	}
+	if m.Nest == "" {
+		val = fmt.Sprintf("(select %s r!o)", oldName)
+		binders = "(r!o Int)"
+	} else {
+		val = fmt.Sprintf("(select (select %s r!o) k!o)", oldName)
+		binders = fmt.Sprintf("(r!o Int) (k!o %s)", m.Nest)
+	}
+	pat = val
+	refs := s.refExprs(m.T, val, 0)
+	if len(refs) == 0 {
+		return ""
+	}
+	var cs []string
+	for _, r := range refs {
+		cs = append(cs, fmt.Sprintf("(<= %s epoch)", r))
+	}
+	return fmt.Sprintf("(assert (forall (%s) (! (=> (<= r!o epoch) (and %s)) :pattern (%s))))\n", binders, strings.Join(cs, " "), pat)
 }
